@@ -129,9 +129,84 @@ def check_security(res, r, sname, so, st):
     return None, None
 
 
+# ---- scans without rounding (theorem C02_dec_scan_exact_without_splits; extraction group
+# "dectransfer", entry 1: coq/Exec/CodecDecTransfer.v probe_loop) ----
+def parse_probe(ints):
+    from common import Reader
+    rd = Reader(ints)
+    if rd.z() != 1:
+        return None
+    out = {}
+    for _ in range(rd.z()):
+        s = rd.z()
+        ps = []
+        for _ in range(rd.z()):
+            ps.append((rd.z(), bool(rd.z()), rd.z(), rd.q(), rd.q()))
+        out[s] = ps
+    assert rd.done()
+    return out
+
+
+def dec_scan_pass(res, rs, st, bad):
+    """at every Sell row of the rounded model run the extracted probe evaluates the hypothesis of the
+    theorem (no Split in the two windows, ten-place share counts and balances) on the scan's own
+    arguments and runs the scan in EXACT arithmetic from the same state; where the hypothesis holds
+    the implementation's decision (superficial or not) and its ratio numerator / denominator must be
+    the exact scan's, bit for bit"""
+    from common import run_model
+    raw = run_model([[1] + core.to_ints(r["case"], 1)[0][1:] for r in rs], group="dectransfer")
+    for r, o in zip(rs, raw):
+        pr = parse_probe(o)
+        i = r["impl"]
+        if pr is None or i["status"] != "ok":
+            continue
+        for s, so in i["secs"].items():
+            ds = so["deltas"]
+            for n, flag, kind, acq, eop in pr.get(s, []):
+                st["dec_scan_sell_rows_probed"] += 1
+                if not flag:
+                    continue
+                st["dec_scan_hypothesis_holds"] += 1
+                if n >= len(ds):
+                    continue        # the sale itself was rejected: no row
+                d = ds[n]
+                if d["act"] != "Sell":
+                    bad.append((r, "probe index %d of security %s is a %s row" % (n, s, d["act"])))
+                    continue
+                if d["reg"] or d["gain"] is None:
+                    continue
+                denied = d["sfl"][0] if d["sfl"] else ZERO
+                if d["gain"] + denied >= 0:
+                    continue        # no capital loss: the scan is not run
+                src = [x for k, x in enumerate(r["case"]["rows"]) if k == d["ri"]]
+                if src and src[0]["act"] == "Sell" and src[0].get("sfl") is not None:
+                    continue        # user-supplied value
+                st["dec_scan_compared"] += 1
+                sold = q_of(d)[0]
+                what = None
+                if kind == 0:
+                    if d["sfl"] is not None:
+                        what = "the exact scan finds the loss not superficial, reported superficial %s" % denied
+                elif kind == 1:
+                    st["dec_scan_compared_superficial"] += 1
+                    num = min(sold, acq, eop)
+                    if d["sfl"] is None:
+                        what = "the exact scan finds acquired %s, held %s (superficial), reported not superficial" % (acq, eop)
+                    elif d["sfl"][1] != num or d["sfl"][2] != sold:
+                        what = "ratio reported %s/%s, the exact scan gives min(%s, %s, %s)/%s" % (d["sfl"][1], d["sfl"][2], sold, acq, eop, sold)
+                else:
+                    what = "the exact scan stops (kind %d) where the implementation emitted the sale" % kind
+                if what:
+                    res.violation("failing-input",
+                                  "security %s row %d: rounding changed the superficial-loss scan of a sale whose window has "
+                                  "no split and only ten-place share counts: %s" % (corecheck.sec_name(r, s), n, what),
+                                  {"input": r["hc"], "row": n, "theorem": "C02_dec_scan_exact_without_splits"})
+
+
 def run(res, ctx):
     tier, seed = ctx["tier"], ctx["seed"]
     rng = random.Random(seed * 32452843 + 2)
+    probe_bad = []
     st = collections.Counter()
     seen, samples, corr = set(), [], []
     n = 1800 if tier == "quick" else 50000
@@ -145,7 +220,9 @@ def run(res, ctx):
                                    terminating_only=(rng.random() < 0.6))
             cases.append({"rows": rows, "inits": {}})
         done += len(cases)
-        for r in corecheck.run_cases(ctx, cases, want_exact=True, render=True):
+        rs = corecheck.run_cases(ctx, cases, want_exact=True, render=True)
+        dec_scan_pass(res, rs, st, probe_bad)
+        for r in rs:
             st["evaluations"] += 1
             i = r["impl"]
             # the superficial-loss annotation of the report (amount, ratio, forced / over-applied markers)
@@ -182,7 +259,18 @@ def run(res, ctx):
         res.violation("broken-correspondence", "model (dec) and implementation differ: " + d,
                       {"theorem_or_projection": "correspondence projection C02 (gain, denied amount, ratio, over-applied flag, generated rows)",
                        "input": r["hc"], "difference": d, "differing_cases": len(corr)}, found_input=False)
+    if probe_bad and not res.violations:
+        r, d = probe_bad[0]
+        res.violation("broken-correspondence", "the probe of the rounded model run does not line up with the implementation's rows: " + d,
+                      {"theorem_or_projection": "C02_dec_scan_exact_without_splits (probe_loop of Exec/CodecDecTransfer.v)",
+                       "input": r["hc"], "differing_cases": len(probe_bad)}, found_input=False)
     res.coverage.update({
+        "scans_without_rounding": {
+            "rule": "Sell rows at which scan_inputs_small (hypothesis of C02_dec_scan_exact_without_splits) holds for the scan's "
+                    "own arguments in the rounded run; compared = those with a capital loss and no supplied value: decision and "
+                    "ratio numerator/denominator equal to the exact scan bit for bit",
+            "sell_rows_probed": st["dec_scan_sell_rows_probed"], "hypothesis_holds": st["dec_scan_hypothesis_holds"],
+            "compared": st["dec_scan_compared"], "compared_superficial": st["dec_scan_compared_superficial"]},
         "evaluations": st["evaluations"],
         "distinct_nontrivial": st["distinct_nontrivial"],
         "rule": "seeded random single-security histories, settlement gaps concentrated on {0,1,2,28,29,30,31,32} days, 1-4 affiliates (registered or not), splits (global / per affiliate), fractional quantities, 20% with user-supplied SfL values; non-trivial = contains a loss sale with an acquisition at offset exactly 0, 29, 30 or 31 days; distinct by SHA-1 of the CSV; the declarative rule is evaluated on the implementation's own rows",
